@@ -68,7 +68,10 @@ func NewMethodEvaluator(
 
 	// a call in a condition is met twice (narrowing scan, then evaluation): it is one call site
 	if ctx.IsCheckRound() && !ctx.IsConditionScan {
-		key := evaluatedObjectT.GetFrame() + evaluatedObjectT.GetObjectClass() + methodIdentifierT.ToString()
+		calleeFrame, calleeClass :=
+			callPointOwner(ctx, instance, evaluatedObjectT, methodIdentifierT.ToString())
+
+		key := calleeFrame + calleeClass + methodIdentifierT.ToString()
 		point := p.FileName + ":" + strconv.Itoa(p.Row)
 
 		callPoint :=
@@ -84,8 +87,8 @@ func NewMethodEvaluator(
 		callerKey := ctx.GetFrame() + ctx.GetClass() + ctx.GetMethod()
 		calleePoint := base.CalleePoint{
 			Point:        point,
-			CalleeFrame:  evaluatedObjectT.GetFrame(),
-			CalleeClass:  evaluatedObjectT.GetObjectClass(),
+			CalleeFrame:  calleeFrame,
+			CalleeClass:  calleeClass,
 			CalleeMethod: methodIdentifierT.ToString(),
 		}
 
@@ -103,6 +106,45 @@ func NewMethodEvaluator(
 		method:           methodIdentifierT.ToString(),
 		isAmpersand:      isAmpersand,
 	}
+}
+
+// callPointOwner names the class whose method a call site reaches, as far as the method
+// table tells: with an implicit receiver inside a class that is the class itself or an
+// ancestor of it, with an explicit one the class that defines the method for the receiver.
+func callPointOwner(
+	ctx context.Context,
+	instance string,
+	evaluatedObjectT *base.T,
+	method string,
+) (string, string) {
+
+	frame, class := evaluatedObjectT.GetFrame(), evaluatedObjectT.GetObjectClass()
+	isStatic := evaluatedObjectT.IsClassType()
+
+	if instance == "" && ctx.GetClass() != "" {
+		frame, class, isStatic = ctx.GetFrame(), ctx.GetClass(), ctx.IsDefineStatic
+	}
+
+	if class == "" {
+		return evaluatedObjectT.GetFrame(), evaluatedObjectT.GetObjectClass()
+	}
+
+	for _, isPrivate := range []bool{false, true} {
+		var methodT *base.T
+
+		switch isStatic {
+		case true:
+			methodT = base.GetClassMethodT(frame, class, method, isPrivate)
+		default:
+			methodT = base.GetMethodT(frame, class, method, isPrivate)
+		}
+
+		if methodT != nil && methodT.DefinedClass != "" {
+			return methodT.DefinedFrame, methodT.DefinedClass
+		}
+	}
+
+	return evaluatedObjectT.GetFrame(), evaluatedObjectT.GetObjectClass()
 }
 
 func (m *MethodEvaluator) Evaluation() error {
